@@ -28,6 +28,16 @@ def gen_tree(rng: random.Random, idx: int):
             fill(f"{prefix}/{d}", depth + 1)
 
     fill(f"pkg{idx}", 0)
+    # a module outside the excluded directories imports packages that lie inside them (mypy then loads their __init__)
+    inits = [f for f in files if f.endswith("__init__.py") and excluded(f + "/x") and f.count("/") >= 2]
+    if inits:
+        lines = []
+        for k, f in enumerate(rng.sample(inits, min(2, len(inits)))):
+            files[f] = f"def initfn{idx}x{k}(a: int) -> int:\n    return a\n"
+            marks[f] = f"initfn{idx}x{k}"
+            lines.append("import " + f[: -len("/__init__.py")].replace("/", "."))
+        files[f"pkg{idx}/zz_importer.py"] = "\n".join(lines) + f"\n\n\ndef importer{idx}(a: int) -> int:\n    return a\n"
+        marks[f"pkg{idx}/zz_importer.py"] = f"importer{idx}"
     # make sure at least one file lies outside every excluded directory
     return files, marks
 
